@@ -162,6 +162,8 @@ pub struct Obs {
     /// range encoder
     pub rc_shifts: u64,
     pub rc_carries: u64,
+    /// shifts with a carry pending while the byte under the carry is 0xFF
+    pub rc_carry_onto_ff: u64,
     pub rc_max_cachesz: u32,
     /// when the harness knows pb: probability-context coverage as decoded
     pub pb: Option<u32>,
@@ -207,6 +209,7 @@ impl Default for Obs {
             chunk_max_packed: 0,
             rc_shifts: 0,
             rc_carries: 0,
+            rc_carry_onto_ff: 0,
             rc_max_cachesz: 0,
             pb: None,
             ctx_is_match: [[0; 16]; 12],
@@ -351,8 +354,11 @@ impl Obs {
                 self.chunk_max_unpacked = self.chunk_max_unpacked.max(unpacked);
                 self.chunk_max_packed = self.chunk_max_packed.max(packed);
             }
-            Event::RcShift { cachesz, carry } => {
+            Event::RcShift { cachesz, carry, low } => {
                 self.rc_shifts += 1;
+                if carry && (low as u32) >= 0xFF00_0000 {
+                    self.rc_carry_onto_ff += 1;
+                }
                 if carry {
                     self.rc_carries += 1;
                 }
